@@ -354,6 +354,9 @@ def R4_who_may_call(ctx):
         astar.RUN: "search loop",
         vf_impl(CFG + "combined::combined_model::CombinedFrontierModel"): "combinator",
         vf_impl("routee_compass_core::algorithm::search::util::edge_cut_frontier_model::EdgeCutFrontierModel"): "combinator",
+        # the edge-oriented wrappers *should* submit the two edges they add (C04.R8, recorded findings): a repair there is welcome
+        astar.A + "a_star::a_star_algorithm::run_a_star_edge_oriented": "edge-oriented wrapper (origin / destination edge)",
+        astar.A + "search_algorithm::SearchAlgorithm::run_edge_oriented": "edge-oriented wrapper (origin / destination edge)",
     }
     for b in F.local_bodies():
         for c in b.calls():
@@ -489,4 +492,32 @@ def R7_cut_instance(ctx):
     spur_instance_rule(ctx, "C04.R7")
 
 
-RULES = [R1_gate, R1b_strict_relaxation, R2_conjunction, R3_predicates, R3b_parser, R4_who_may_call, R5_pair_order, S0, R6_plumbing, R7_cut_instance]
+def R8_edge_oriented_ends(ctx):
+    """C04.R8 the two edges an edge-oriented query is wrapped in are part of the route: they and the turns onto / off them must be
+    submitted to the frontier model like every other edge.  The wrappers run a vertex-oriented sub-search from dst(origin edge)
+    to src(destination edge); run_a_star asks the frontier model about (candidate edge, tree edge of the popped vertex), and for
+    the sub-search's root that tree edge is None — so unless the wrapper itself submits them, (origin edge -> first edge),
+    (last edge -> destination edge) and the destination edge are never tested."""
+    F = ctx.F
+    ctx.rule("C04.R8", "edge-oriented wrappers (run_a_star_edge_oriented, SearchAlgorithm::run_edge_oriented): somewhere below the wrapper FrontierModel::valid_frontier is asked (a) with the origin edge as `previous_edge` — the turn from the origin edge onto the first edge of the sub-search — and (b) with the destination edge as `edge`", floor=4)
+    import astar
+    for wpath, short_ in ((astar.A + "a_star::a_star_algorithm::run_a_star_edge_oriented", "run_a_star_edge_oriented"), (astar.A + "search_algorithm::SearchAlgorithm::run_edge_oriented", "run_edge_oriented")):
+        b = F.need(wpath)
+        tm = Terms(b)
+        tys = [b.locals[i]["ty"] for i in range(1, b.argc + 1)]
+        src_i = next((i + 1 for i, t in enumerate(tys) if re.search(r"(^|::)EdgeId$", t)), None)
+        dst_i = next((i + 1 for i, t in enumerate(tys) if re.search(r"Option<.*EdgeId>$", t)), None)
+        if src_i is None or dst_i is None:
+            raise AnchorMissing("%s: (EdgeId, Option<EdgeId>) parameters" % short_)
+        vfs = [c for c in b.calls_deep() if c.func.get("method") == "valid_frontier" or (c.callee or "").endswith("::valid_frontier")]
+        def arg_term(c, i):
+            return clean(c.arg_terms[i]) if isinstance(c, VirtualCallSite) else clean(tm.operand(c.args[i], c.bb))
+        from_src = lambda t: contains(t, lambda x: x == ("arg", src_i))
+        from_dst = lambda t: contains(t, lambda x: x == ("arg", dst_i))
+        ok_o = any(len(c.args) >= 4 and from_src(arg_term(c, 3)) for c in vfs)
+        ok_d = any(len(c.args) >= 2 and from_dst(arg_term(c, 1)) for c in vfs)
+        ctx.check(ok_o, "%s:origin-turn-ungated" % short_, "%s never submits (first edge of the sub-search, previous = origin edge) to the frontier model: the sub-search's root has no tree edge, so a restricted turn (origin edge -> e) is used (%d valid_frontier calls below the wrapper)" % (short_, len(vfs)), b.where())
+        ctx.check(ok_d, "%s:destination-edge-ungated" % short_, "%s appends the destination edge without asking the frontier model about it (edge = destination edge, previous = last edge of the sub-search): a forbidden destination edge or a restricted turn onto it is used" % short_, b.where())
+
+
+RULES = [R1_gate, R1b_strict_relaxation, R2_conjunction, R3_predicates, R3b_parser, R4_who_may_call, R5_pair_order, S0, R6_plumbing, R7_cut_instance, R8_edge_oriented_ends]
